@@ -120,4 +120,255 @@ theorem shapeOnly_reduceAxes (base : String) (hb : outReduceOps.contains base = 
       rw [hv]
       exact ⟨_, rfl, rfl⟩
 
+theorem normAxis_negAxis (rank : Nat) (d : Int) (h : axisValid rank d = true) :
+    normAxis rank (negAxis rank d) = normAxis rank d := by
+  simp only [axisValid, decide_eq_true_eq] at h
+  obtain ⟨h1, h2⟩ := h
+  have hr : (0 : Int) < rank := by omega
+  unfold negAxis
+  by_cases hd : 0 ≤ d
+  · have hm : d % (rank : Int) = d := Int.emod_eq_of_lt hd h2
+    rw [hm]
+    unfold normAxis
+    have c1 : ¬ (0 ≤ d - (rank : Int) ∧ d - (rank : Int) < rank) := by omega
+    have c2 : d - (rank : Int) < 0 ∧ -(d - (rank : Int)) ≤ rank := by omega
+    have c3 : 0 ≤ d ∧ d < rank := ⟨hd, h2⟩
+    rw [if_neg c1, if_pos c2, if_pos c3]
+    congr 1
+    omega
+  · have hm : d % (rank : Int) = d + rank := by
+      rw [← Int.add_emod_right]
+      exact Int.emod_eq_of_lt (by omega) (by omega)
+    rw [hm]
+    unfold normAxis
+    have c1 : ¬ (0 ≤ d + (rank : Int) - rank ∧ d + (rank : Int) - rank < rank) := by omega
+    have c2 : d + (rank : Int) - rank < 0 ∧ -(d + (rank : Int) - rank) ≤ rank := by omega
+    have c3 : ¬ (0 ≤ d ∧ d < rank) := by omega
+    have c4 : d < 0 ∧ -d ≤ rank := by omega
+    rw [if_neg c1, if_pos c2, if_neg c3, if_pos c4]
+    congr 2
+    omega
+
+theorem mapM_negAxis (rank : Nat) : ∀ (l : List Int), l.all (axisValid rank) = true →
+    (l.map (negAxis rank)).mapM (normAxis rank) = l.mapM (normAxis rank) := by
+  intro l
+  induction l with
+  | nil => intro _; rfl
+  | cons d l ih =>
+    intro h
+    simp only [List.all_cons, Bool.and_eq_true] at h
+    simp only [List.map_cons, List.mapM_cons, normAxis_negAxis rank d h.1, ih h.2]
+
+/-- Addressing the event axes by negative positions selects the same axes. -/
+theorem reduceAxes_negAxis (base : String) (s : Sem) (l : List Int) (keep : Bool)
+    (h : l.all (axisValid s.shape.length) = true) :
+    s.reduceAxes base (some (l.map (negAxis s.shape.length))) keep = s.reduceAxes base (some l) keep := by
+  unfold Sem.reduceAxes
+  simp only [mapM_negAxis _ l h]
+
+/-- eager_reduction_tensor: sum/prod/amax/amin/all/any over output axes with axis / keepdims. -/
+theorem reduction_axis_sem (base : String) (axes : Option (List Int)) (keep : Bool) (a r : NT) (env : Env)
+    (h : reductionAxis base axes keep a = some r) (hpre : (preOf r.inputs env).isSome) :
+    r.atEnv env = (a.atEnv env).bind (fun s => s.reduceAxes base axes keep) := by
+  unfold reductionAxis at h
+  split at h
+  · cases h
+  · rename_i hb
+    have hb' : outReduceOps.contains base = true := by simpa using hb
+    split at h
+    · split at h
+      · exact mapRows_sem _ (shapeOnly_reduceAxes base hb' none keep) a r env h hpre
+      · cases h
+    · split at h
+      · exact mapRows_sem _ (shapeOnly_reduceAxes base hb' axes keep) a r env h hpre
+      · split at h
+        · exact mapRows_sem _ (shapeOnly_reduceAxes base hb' none keep) a r env h hpre
+        · rename_i l
+          split at h
+          · rename_i hv
+            rw [mapRows_sem _ (shapeOnly_reduceAxes base hb' _ keep) a r env h hpre]
+            cases hx : a.atEnv env with
+            | none => rfl
+            | some s =>
+              simp only [Option.bind_some]
+              have hsh : s.shape = a.shape := by
+                simp only [NT.atEnv] at hx
+                cases hp : preOf a.inputs env with
+                | none => rw [hp] at hx; cases hx
+                | some p => rw [hp] at hx; cases hx; rfl
+              rw [← hsh] at hv ⊢
+              exact reduceAxes_negAxis base s l keep hv
+          · cases h
+
+theorem evalUnary_red (op : Op) (base : String) (hl : reductionOps.lookup op.name = some base) (s : Sem) :
+    evalUnary op s = (match redArgs op with
+      | some (axes, keep) => s.reduceAxes base axes keep
+      | none => none) := by
+  unfold evalUnary redArgs
+  rw [hl]
+  dsimp only
+  cases hp : paramOf op.params "axis" with
+  | none => rfl
+  | some x =>
+    cases x with
+    | atom a =>
+      by_cases ha : a = "none"
+      · subst ha; rfl
+      · cases hi : a.toInt? with
+        | none => simp only [hi, Option.map_none]; split <;> simp_all
+        | some i => simp only [hi, Option.map_some]; split <;> first | rfl | simp_all
+    | str a =>
+      cases hi : sexpInts? (Sexp.str a) with
+      | none => simp only [hi, Option.map_none]
+      | some l => simp only [hi, Option.map_some]; rfl
+    | list xs =>
+      cases hi : sexpInts? (Sexp.list xs) with
+      | none => simp only [hi, Option.map_none]
+      | some l => simp only [hi, Option.map_some]; rfl
+
+theorem evalUnary_reshape (op : Op) (hn : op.name = "reshape") (s : Sem) :
+    evalUnary op s = ((paramOf op.params "shape").bind Sexp.asNats?).bind s.reshape := by
+  unfold evalUnary
+  rw [hn]
+  simp [reductionOps, List.lookup]
+
+theorem evalUnary_getslice (op : Op) (hn : op.name = "getslice") (s : Sem) :
+    evalUnary op s = ((paramOf op.params "index").bind parseIdxItems).bind s.getslice := by
+  unfold evalUnary
+  rw [hn]
+  simp [reductionOps, List.lookup]
+
+/-- Unary dispatch (output-axis reductions, reshape, getslice, pointwise) agrees with `evalUnary`. -/
+theorem unaryOp_sem (op : Op) (a r : NT) (env : Env) (h : unaryOp op a = some r)
+    (hpre : (preOf r.inputs env).isSome) :
+    r.atEnv env = (a.atEnv env).bind (evalUnary op) := by
+  unfold unaryOp at h
+  split at h
+  · rename_i base hl
+    split at h
+    · rename_i axes keep hra
+      rw [reduction_axis_sem base axes keep a r env h hpre]
+      congr 1; funext s; rw [evalUnary_red op base hl s, hra]
+    · cases h
+  · rename_i hl
+    split at h
+    · rename_i hn
+      have hn' : op.name = "reshape" := by simpa using hn
+      split at h
+      · rename_i sh hsh
+        rw [reshape_sem sh a r env h hpre]
+        congr 1; funext s; rw [evalUnary_reshape op hn' s, hsh]; rfl
+      · cases h
+    · split at h
+      · rename_i hn
+        have hn' : op.name = "getslice" := by simpa using hn
+        split at h
+        · rename_i items hit
+          rw [getslice_sem items a r env h hpre]
+          congr 1; funext s; rw [evalUnary_getslice op hn' s, hit]; rfl
+        · cases h
+      · exact unary_sem op a r env h
+
+theorem foldl_add (l : List Nat) : ∀ (a : Nat), l.foldl (· + ·) a = a + l.foldl (· + ·) 0 := by
+  induction l with
+  | nil => intro a; simp
+  | cons x l ih => intro a; simp only [List.foldl_cons]; rw [ih (a + x), ih (0 + x)]; omega
+
+/-- A global position below the total size lies in exactly one part, at a local position inside it. -/
+theorem locate_some : ∀ (sizes : List Nat) (g k0 : Nat), g < sizes.foldl (· + ·) 0 →
+    ∃ j loc sz, locate sizes g k0 = some (k0 + j, loc) ∧ sizes[j]? = some sz ∧ loc < sz := by
+  intro sizes
+  induction sizes with
+  | nil => intro g k0 h; simp at h
+  | cons s ss ih =>
+    intro g k0 h
+    simp only [List.foldl_cons] at h
+    rw [foldl_add] at h
+    simp only [locate]
+    by_cases hg : g < s
+    · exact ⟨0, g, s, by simp [hg], by simp, hg⟩
+    · obtain ⟨j, loc, sz, hl, hs, hlt⟩ := ih (g - s) (k0 + 1) (by omega)
+      refine ⟨j + 1, loc, sz, ?_, by simpa using hs, hlt⟩
+      simp only [hg, if_false, hl]
+      congr 2; omega
+
+theorem zip_getElem? {α β : Type} : ∀ (l1 : List α) (l2 : List β) (k : Nat) (a : α) (b : β),
+    l1[k]? = some a → l2[k]? = some b → (a, b) ∈ l1.zip l2 := by
+  intro l1 l2 k a b h1 h2
+  have : (l1.zip l2)[k]? = some (a, b) := by simp [List.getElem?_zip_eq_some, h1, h2]
+  exact List.mem_of_getElem? this
+
+theorem mapM_getElem? {α β : Type} (f : α → Option β) : ∀ (l : List α) (r : List β), l.mapM f = some r →
+    ∀ (k : Nat) (b : β), r[k]? = some b → ∃ a, l[k]? = some a ∧ f a = some b := by
+  intro l
+  induction l with
+  | nil => intro r h k b hk; simp at h; subst h; simp at hk
+  | cons x l ih =>
+    intro r h k b hk
+    simp only [List.mapM_cons] at h
+    cases hx : f x with
+    | none => simp [hx] at h
+    | some y =>
+      cases hr : l.mapM f with
+      | none => simp [hx, hr] at h
+      | some r' =>
+        simp [hx, hr] at h
+        subst h
+        cases k with
+        | zero => simp at hk; subst hk; exact ⟨x, by simp, hx⟩
+        | succ k =>
+          simp only [List.getElem?_cons_succ] at hk ⊢
+          exact ih r' hr k b hk
+
+/-- eager_cat_homogeneous: the new leading input locates the part and the position inside it. -/
+theorem cat_sem (name partName : Name) (parts : List NT) (sizes : List Nat) (r : NT) (env : Env)
+    (hsz : catSizes partName parts = some sizes)
+    (h : cat name partName parts = some r) (hpre : (preOf r.inputs env).isSome) :
+    r.atEnv env = (match (env.lookup name).bind Sem.toNat? with
+      | none => none
+      | some g => match locate sizes g 0 with
+        | none => none
+        | some (k, loc) => match parts[k]? with
+          | some p => p.atEnv ((partName, Sem.ofNat loc) :: env)
+          | none => none) := by
+  unfold cat at h
+  split at h
+  · cases h
+  · rename_i p0 ps
+    generalize odErase ((p0 :: ps).foldl (fun acc p => odUpdate acc p.inputs) [(partName, 0)]) partName = rest at h
+    unfold catSizes at hsz
+    simp only [hsz] at h
+    simp only [Bool.and_eq_true] at h
+    split at h
+    · rename_i hc
+      obtain ⟨⟨hshape, hsub⟩, hname⟩ := hc
+      cases h
+      obtain ⟨pp, hpp⟩ := Option.isSome_iff_exists.mp hpre
+      simp only [preOf] at hpp
+      split at hpp
+      · rename_i g p hg hp
+        cases hpp
+        obtain ⟨hlook, hlt⟩ := envIdx_some hg
+        simp only [hlook]
+        have hlen := preOf_length hp
+        obtain ⟨j, loc, sz, hloc, hsj, hlocsz⟩ := locate_some sizes g 0 hlt
+        simp only [Nat.zero_add] at hloc
+        simp only [hloc]
+        obtain ⟨part, hpart, hlk⟩ := mapM_getElem? _ _ _ hsz j sz hsj
+        have hmem : (part, sz) ∈ (p0 :: ps).zip sizes := zip_getElem? _ _ j part sz hpart hsj
+        have hsd := (List.all_eq_true.mp hsub) (part, sz) hmem
+        simp only at hsd
+        obtain ⟨g', hg', hr⟩ := readAt_eq (env := env) part [(partName, sz)] rest [loc] p
+          (by simp [validIdx, hlocsz]) hp (by simpa using hsd)
+        simp only [List.map_cons, List.map_nil, bindEnv, List.cons_append, List.nil_append] at hg' hr
+        have hsh : part.shape = p0.shape := by
+          have := (List.all_eq_true.mp hshape) part (List.mem_of_getElem? hpart)
+          simpa using this
+        simp only [hpart, NT.atEnv, preOf, hg, hp, hg', Option.map_some, NT.row, Option.some.injEq, Sem.mk.injEq]
+        refine ⟨hsh.symm, ?_⟩
+        funext ev
+        simp only [List.cons_append, hloc, hpart, ← hlen, List.take_left', List.drop_left', hr]
+      · cases hpp
+    · cases h
+
 end FV.Props.C01
